@@ -42,8 +42,77 @@ _ENV = {}
 BASE = {}
 
 
-def base(op):
+BASE2 = {}   # (generic selection, indexer kind) -> base operation (UxOps!GselBase)
+GSEL_OPS = {"gsel_kw", "gsel_dict", "gsel_indexers", "gsel_getitem", "ds_gsel", "grid_gsel"}
+
+
+def base(op, ix="-"):
+    if op in GSEL_OPS:
+        return BASE2[(op, ix)]
     return BASE.get(op, op)
+
+
+def make_indexer(ix, x, g):
+    """The indexer of kind `ix` for grid dimension g of x (UxDataArray or plain DataArray)."""
+    import xarray as xr
+
+    n = x.sizes[g]
+    two = [0, 1] if n >= 3 else [0]
+    marks = [1, 3] if n >= 4 else [0]
+    m = np.zeros(n, dtype=bool)
+    m[marks] = True
+    is_ux = hasattr(x, "uxgrid")
+
+    def da(vals):
+        if is_ux:
+            return hux.import_ux().UxDataArray(vals, dims=[g], uxgrid=x.uxgrid)
+        return xr.DataArray(vals, dims=[g])
+
+    if ix == "ilist": return list(two)
+    if ix == "ituple": return tuple(two)
+    if ix == "i32": return np.array(two, dtype=np.int32)
+    if ix == "i64": return np.array(two, dtype=np.int64)
+    if ix == "ixda": return xr.DataArray(np.array(two), dims=[g])
+    if ix == "iuxda": return da(np.array(two))
+    if ix == "irange": return range(0, len(two))
+    if ix == "repeated": return [1, 1, 0] if n >= 2 else [0, 0]
+    if ix == "unsorted": return [2, 0] if n >= 3 else [0]
+    if ix == "blist": return m.tolist()
+    if ix == "bnd": return m
+    if ix == "bxda": return xr.DataArray(m, dims=[g])
+    if ix == "buxda":
+        t = da(np.arange(n, dtype=float))          # a comparison on data living on the grid
+        out = (t == float(marks[0]))
+        for k in marks[1:]:
+            out = out | (t == float(k))
+        return out
+    if ix == "scalar": return 0
+    if ix == "s_bounded": return slice(0, 2)
+    if ix == "s_step": return STEP
+    if ix == "s_rev": return REV
+    if ix == "s_neg": return slice(-2, None)
+    if ix == "s_negstop": return slice(None, -1)
+    if ix == "s_none": return slice(None)
+    if ix == "empty": return np.array([], dtype=np.int64)
+    raise KeyError(ix)
+
+
+def apply_gsel(op, x, g, ix):
+    I = make_indexer(ix, x, g)
+    if op == "gsel_kw": return x.isel(**{g: I})
+    if op == "gsel_dict": return x.isel({g: I})
+    if op == "gsel_indexers": return x.isel(indexers={g: I})
+    if op == "gsel_getitem": return x[_at(x, g, I)]
+    if op == "ds_gsel": return _ds(x).isel(**{g: I})["v"]
+    if op == "grid_gsel":
+        import xarray as xr
+
+        if not hasattr(x, "uxgrid"):
+            return x.isel({g: I})
+        # Grid.isel itself: the data is what plain xarray selects, the grid what Grid.isel builds
+        Ip = make_indexer(ix, to_plain(x), g)
+        return hux.import_ux().UxDataArray(to_plain(x).isel({g: Ip}), uxgrid=x.uxgrid.isel(**{g: I}))
+    raise KeyError(op)
 
 
 def _ds(x):
@@ -130,11 +199,13 @@ def _at(x, d, item):
     return tuple([slice(None)] * pos + [item])
 
 
-def apply(op, d, x, dest=None, mix=(), full=False):
+def apply(op, d, x, dest=None, mix=(), full=False, ix="-"):
     """Apply the public operation `op` (dimension argument d) to x (UxDataArray or DataArray)."""
     import xarray as xr
 
     g = grid_dim(x)
+    if op in GSEL_OPS:
+        return apply_gsel(op, x, g, ix)
     if op.startswith("ds_"):
         return apply_ds(op, d, x, g, dest, mix=mix)
     # ---- elementwise
@@ -318,10 +389,11 @@ def observe_companions(op, out, pre, mix, reg, project_):
                     row = vals.reshape(-1, vals.shape[-1])[0]
                     rec["src"] = [int(t) % 1000 if t == t else -1 for t in row.tolist()]
                     if k not in sel_cache:
-                        pk = {key: i for i, key in enumerate(element_keys(pre.uxgrid, k))}
-                        sel_cache[k] = [pk.get(key, -1) for key in element_keys(v.uxgrid, k)]
-                    rec["sel"] = sel_cache[k]
+                        pk, canon = canonical(element_keys(pre.uxgrid, k))
+                        sel_cache[k] = ([pk.get(key, -1) for key in element_keys(v.uxgrid, k)], canon)
                     rec["val"] = "eq" if _arr_eq(vals, np.take(orig, rec["src"], axis=-1)) else "diff"
+                    rec["sel"], canon = sel_cache[k]
+                    rec["src"] = [canon[i] if 0 <= i < len(canon) else i for i in rec["src"]]
                 elif not kinds:
                     rec["val"] = "eq" if _arr_eq(np.asarray(v.values, dtype=float), orig) else "diff"
             except Exception:  # noqa
@@ -482,7 +554,16 @@ def element_keys(g, kind):
     return [frozenset(nk[int(j)] for j in row if j != FILL and j >= 0) for row in np.asarray(conn)]
 
 
-def selection_maps(op, pre, r, dest=None, d="-", mix=()):
+def canonical(keys):
+    """A grid may hold the same element twice (after a repeated selection): elements are identified up to that.
+    Returns ({key: first index with that key}, [canonical index of every element])."""
+    first = {}
+    for i, key in enumerate(keys):
+        first.setdefault(key, i)
+    return first, [first[key] for key in keys]
+
+
+def selection_maps(op, pre, r, dest=None, d="-", mix=(), ix="-"):
     """For a selection on the grid dimension: (src, sel).
     src[i]: index in `pre` the data at position i came from - a tracer array (values = element index) on pre's grid is
             put through the same call;
@@ -492,16 +573,18 @@ def selection_maps(op, pre, r, dest=None, d="-", mix=()):
     n = pre.sizes[k]
     try:
         t = ux.UxDataArray(np.arange(n, dtype=float), dims=[k], uxgrid=pre.uxgrid, name="t")
-        tr = apply(op, d, t, dest=dest, mix=mix)
+        tr = apply(op, d, t, dest=dest, mix=mix, ix=ix)
         src = [int(v) if v == v else -1 for v in np.asarray(tr.values, dtype=float).ravel().tolist()]
     except Exception:  # noqa
         src = [-2]
     try:
-        pk = {key: i for i, key in enumerate(element_keys(pre.uxgrid, k))}
+        pk, canon = canonical(element_keys(pre.uxgrid, k))
         sel = [pk.get(key, -1) for key in element_keys(r.uxgrid, k)]
+        raw = list(src)
+        src = [canon[i] if 0 <= i < len(canon) else i for i in src]
     except Exception:  # noqa
-        sel = [-3]
-    return src, sel
+        sel, canon, raw = [-3], None, list(src)
+    return src, sel, canon, raw
 
 
 def project(r, reg):
